@@ -101,7 +101,7 @@ def gen_fasta(rng, n):
         elif r < 0.90:
             kind = rng.choice(["nuc", "nuc_amb", "prot_stop"])
             ops.append({"op": "typed_seq", "k": rng.choice(keys) if keys and rng.random() < 0.3 else gen_header(rng),
-                        "kind": kind, "seq": gen_seq(rng, kind, 1), "as_rna": kind != "prot_stop" and rng.random() < 0.2})
+                        "kind": kind, "seq": gen_seq(rng, kind, 1), "as_rna": rng.random() < 0.25})
             if ops[-1]["k"] not in keys:
                 keys.append(ops[-1]["k"])
         elif r < 0.92:
@@ -661,7 +661,9 @@ class FastaSim(Base):
         st, v = call(fasta.set_sequence, self.file, seq, op["k"], op["as_rna"])
         if st == "exc":
             self.fail("typed:set_sequence-raised", got=exc_name(v), msg=str(v)[:200])
-        self.model[op["k"]] = op["seq"].replace("T", "U") if op["as_rna"] else op["seq"]
+        # documented: T is replaced by U "if a NucleotideSequence was given"; other sequence types are written as they are
+        rna = op["as_rna"] and not op["kind"].startswith("prot")
+        self.model[op["k"]] = op["seq"].replace("T", "U") if rna else op["seq"]
         self.mutations += 1
         self.invariants("typed_seq")
         st, new = call(self.through, "memory", self.file.write, self.F.read, ".fasta")
